@@ -281,6 +281,12 @@ def counted_len(x):
   return [type(x).__name__, len(x)]
 
 
+def counted_describe(x):
+  """A counted call that hands its argument back (the argument may be a held object or a traced constant)."""
+  _count('counted_describe')
+  return ['described', x]
+
+
 def counted_list(n):
   _count('counted_list')
   return [n, n + 1]
